@@ -708,6 +708,7 @@ func GetVariantsPair(ref, query []byte, refID, queryID string, idx int, cdsregio
 	// there might be dups if there was a snp in the region of a join()
 	finalVariants := make([]Variant, 0)
 	previousVariant := Variant{}
+	seen := make(map[Variant]bool, len(variants))
 	for i, v := range variants {
 		if i == 0 {
 			// don't want deletions that abut the start of the sequence
@@ -716,16 +717,20 @@ func GetVariantsPair(ref, query []byte, refID, queryID string, idx int, cdsregio
 			}
 			finalVariants = append(finalVariants, v)
 			previousVariant = v
+			seen[v] = true
 			continue
 		}
 		if v.Changetype == "del" && v.Position == 0 {
 			continue
 		}
-		if v == previousVariant {
+		// the copies of a change found twice (two features with one name, start and frame) need not
+		// be next to each other when another feature has a change at the same position
+		if v == previousVariant || seen[v] {
 			continue
 		}
 		finalVariants = append(finalVariants, v)
 		previousVariant = v
+		seen[v] = true
 	}
 
 	// and we're done
